@@ -4,6 +4,7 @@ import flowpaths.abstractpathmodeldag as pathmodel
 import flowpaths.utils as utils
 import flowpaths.nodeexpandeddigraph as nedg
 import copy
+import math
 
 
 class kLeastAbsErrors(pathmodel.AbstractPathModelDAG):
@@ -221,11 +222,11 @@ class kLeastAbsErrors(pathmodel.AbstractPathModelDAG):
                 self.optimization_options["optimize_with_safety_as_subpath_constraints"] = True
         
         self.flow_attr = flow_attr
-        self.w_max = self.k * self.weight_type(
-            self.G.get_max_flow_value_and_check_non_negative_flow(
-                flow_attr=self.flow_attr, edges_to_ignore=self.edges_to_ignore
-            )
+        max_flow_value = self.G.get_max_flow_value_and_check_non_negative_flow(
+            flow_attr=self.flow_attr, edges_to_ignore=self.edges_to_ignore
         )
+        # For integer weights the bound is rounded up: int() would truncate 2.9999999999999996 to 2 (and 0.9999999999999999 to 0)
+        self.w_max = self.k * (math.ceil(max_flow_value) if self.weight_type == int else float(max_flow_value))
         self.w_max = max(self.w_max, max(self.solution_weights_superset or [0]))
 
         self.pi_vars = {}
